@@ -251,40 +251,13 @@ func verif_C05_limiter() {
 	s.MaxLineLength = max + 8 // the command lines themselves (<= 21 octets) fit
 	max = s.MaxLineLength
 	vc := &vconn{in: in, final: io.EOF}
-	firstRead := 0 // chunk octets that arrive in the same read as the BDAT line
 	switch segMode {
 	case 0:
 		vc.cuts = []int{len(head), cutAt, cutAt + run}
 	case 1:
 		vc.cuts = []int{len(head)}
-		firstRead = run
 	case 2:
 		vc.cuts = []int{len(head), cutAt + run - 1, cutAt + run}
-		firstRead = run - 1
-	}
-	// what the limiter (which sits below bufio) counts in that read
-	limiterTrips := false
-	cur := 1
-	for _, ch := range payload[:firstRead] {
-		if ch == '\n' {
-			cur = 0
-		}
-		cur++
-		if cur > max {
-			limiterTrips = true
-		}
-	}
-	if segMode == 1 && !limiterTrips {
-		// the NOOP line is in the same read as well
-		for _, ch := range []byte("NOOP\r\n") {
-			if ch == '\n' {
-				cur = 0
-			}
-			cur++
-			if cur > max {
-				limiterTrips = true
-			}
-		}
 	}
 	c := newConn(vc, s)
 	err := s.handleConn(c)
@@ -302,9 +275,8 @@ func verif_C05_limiter() {
 			tooLong = true
 		}
 	}
-	// the limiter sits below bufio: octets of the chunk that arrive in the same
-	// read as the BDAT line are counted as line octets (listed known finding)
-	verifKnown("KF-C05-limiter-counts-payload", limiterTrips)
+	// (octets of the chunk that arrive in the same read as the BDAT line used
+	// to be counted as line octets: fixed, see known_findings.json)
 	verifAssert(!tooLong, "C05.no-line-limit-on-chunk-payload")
 	if tooLong {
 		return
